@@ -21,6 +21,7 @@ import (
 	"sync"
 	"time"
 
+	"github.com/btcsuite/btcd/btcec/v2"
 	"github.com/btcsuite/btcd/btcjson"
 	"github.com/btcsuite/btcd/btcutil"
 	"github.com/btcsuite/btcd/btcutil/hdkeychain"
@@ -45,9 +46,14 @@ import (
 // ------------------------------------------------------------------ inputs
 
 type callSpec struct {
-	API   string `json:"api"`   // NewAddress NewChangeAddress CurrentAddress CreateSimpleTx CreateSimpleTxDry FundPsbt
-	Scope string `json:"scope"` // "84" | "86" | "49"
-	Gate  bool   `json:"gate"`  // park this call between its commit and its commit handlers
+	// NewAddress NewChangeAddress CurrentAddress CreateSimpleTx CreateSimpleTxDry FundPsbt
+	// (on Account), and SpendImported SpendImportedDry FundPsbtImported: the same
+	// spends with inputs owned by an imported private key
+	// (account = waddrmgr.ImportedAddrAccount), whose change is created on account 0.
+	API     string `json:"api"`
+	Scope   string `json:"scope"`             // "84" | "86" | "49"
+	Account uint32 `json:"account,omitempty"` // 0 (default) or 1 (scope 84 only)
+	Gate    bool   `json:"gate"`              // park this call between its commit and its commit handlers
 }
 
 type stepSpec struct {
@@ -68,9 +74,10 @@ type scenario struct {
 
 type callObs struct {
 	API     string `json:"api"`
-	Site    string `json:"site"`   // the wallet function whose Update issues (site table name)
-	Scope   string `json:"scope"`  // scope of the branch this call draws from
-	Branch  uint32 `json:"branch"` // 0 external, 1 internal
+	Site    string `json:"site"`    // the wallet function whose Update issues (site table name)
+	Scope   string `json:"scope"`   // scope of the branch this call draws from
+	Account uint32 `json:"account"` // account whose counter this call draws from
+	Branch  uint32 `json:"branch"`  // 0 external, 1 internal
 	Addr    string `json:"addr"`
 	Index   int64  `json:"index"`   // derivation index of Addr, -1 if none / not found
 	Err     string `json:"err"`     // error returned by the API
@@ -88,6 +95,7 @@ type event struct {
 
 type branchObs struct {
 	Scope     string  `json:"scope"`
+	Account   uint32  `json:"account"`
 	Branch    uint32  `json:"branch"`
 	N0        uint32  `json:"n0"`         // key count on disk before the concurrent phase
 	Cached    bool    `json:"cached"`     // the account was loaded into memory before the concurrent phase
@@ -123,9 +131,38 @@ var (
 		"49": waddrmgr.KeyScopeBIP0049Plus,
 	}
 	scopeNames = []string{"49", "84", "86"}
+	// the index counters observed: account 0 of every scope, account 1 of scope 84
+	counters   = []ctr{{"49", 0}, {"84", 0}, {"84", 1}, {"86", 0}}
 	fundHash   chainhash.Hash // txid of the funding transaction of the template
-	fundScript []byte
+	fundScript []byte         // pays external address 0 of account 0, scope 84 (output 0)
 )
+
+// outputs of the funding transaction
+const (
+	fundOutAcct0    = 0
+	fundOutAcct1    = 1
+	fundOutImported = 2
+)
+
+type ctr struct {
+	scope   string
+	account uint32
+}
+
+func (c ctr) String() string { return fmt.Sprintf("%s/%d", c.scope, c.account) }
+
+func isImportedSpend(api string) bool {
+	return api == "SpendImported" || api == "SpendImportedDry" || api == "FundPsbtImported"
+}
+
+// counterOf is the (scope, account) whose next index the call advances: a
+// spend from the imported account creates its change on account 0.
+func counterOf(c callSpec) ctr {
+	if isImportedSpend(c.API) {
+		return ctr{c.Scope, 0}
+	}
+	return ctr{c.Scope, c.Account}
+}
 
 const fundAmount = 100000000
 
@@ -133,8 +170,10 @@ const fundAmount = 100000000
 // transaction (the name used in the generated site table).
 func siteOf(api string) string {
 	switch api {
-	case "CreateSimpleTx", "CreateSimpleTxDry":
+	case "CreateSimpleTx", "CreateSimpleTxDry", "SpendImported", "SpendImportedDry":
 		return "txToOutputs"
+	case "FundPsbtImported":
+		return "FundPsbt"
 	default:
 		return api
 	}
@@ -296,7 +335,9 @@ func (o *opened) close() {
 }
 
 // makeTemplate creates the wallet file every scenario starts from: fixed
-// seed, one confirmed 1 BTC output paying to external address 0 of scope 84.
+// seed, account 1 in scope 84, one imported private key (scope 84), and one
+// confirmed transaction paying 1 BTC each to external address 0 of account 0,
+// external address 0 of account 1 and the imported key's address.
 func (e *env) makeTemplate() error {
 	e.template = filepath.Join(e.dir, "template.db")
 	db, err := walletdb.Create("bdb", e.template, true, time.Minute, false)
@@ -327,9 +368,51 @@ func (e *env) makeTemplate() error {
 	if err != nil {
 		return err
 	}
+	acct1, err := o.w.NextAccount(waddrmgr.KeyScopeBIP0084, "acct1")
+	if err != nil {
+		return err
+	}
+	if acct1 != 1 {
+		return fmt.Errorf("second account has number %d", acct1)
+	}
+	addr1, err := o.w.CurrentAddress(1, waddrmgr.KeyScopeBIP0084)
+	if err != nil {
+		return err
+	}
+	script1, err := txscript.PayToAddrScript(addr1)
+	if err != nil {
+		return err
+	}
+	priv, _ := btcec.PrivKeyFromBytes(bytes.Repeat([]byte{0x37}, 32))
+	wif, err := btcutil.NewWIF(priv, params, true)
+	if err != nil {
+		return err
+	}
+	var addrI btcutil.Address
+	err = walletdb.Update(o.w.Database(), func(dbtx walletdb.ReadWriteTx) error {
+		sm, err := o.w.Manager.FetchScopedKeyManager(waddrmgr.KeyScopeBIP0084)
+		if err != nil {
+			return err
+		}
+		ma, err := sm.ImportPrivateKey(dbtx.ReadWriteBucket([]byte("waddrmgr")), wif, nil)
+		if err != nil {
+			return err
+		}
+		addrI = ma.Address()
+		return nil
+	})
+	if err != nil {
+		return fmt.Errorf("import private key: %w", err)
+	}
+	scriptI, err := txscript.PayToAddrScript(addrI)
+	if err != nil {
+		return err
+	}
 	tx := wire.NewMsgTx(2)
 	tx.AddTxIn(&wire.TxIn{PreviousOutPoint: wire.OutPoint{Index: 7}})
 	tx.AddTxOut(wire.NewTxOut(fundAmount, fundScript))
+	tx.AddTxOut(wire.NewTxOut(fundAmount, script1))
+	tx.AddTxOut(wire.NewTxOut(fundAmount, scriptI))
 	var b bytes.Buffer
 	if err := tx.Serialize(&b); err != nil {
 		return err
@@ -345,7 +428,12 @@ func (e *env) makeTemplate() error {
 		if err := o.w.TxStore.InsertTx(ns, rec, blk); err != nil {
 			return err
 		}
-		return o.w.TxStore.AddCredit(ns, rec, blk, 0, false)
+		for i := uint32(0); i < 3; i++ {
+			if err := o.w.TxStore.AddCredit(ns, rec, blk, i, false); err != nil {
+				return err
+			}
+		}
+		return nil
 	})
 }
 
@@ -385,16 +473,16 @@ func (e *env) diskCounts(db walletdb.DB) (map[string][2]uint32, error) {
 			return err
 		}
 		defer mgr.Close()
-		for _, sn := range scopeNames {
-			sm, err := mgr.FetchScopedKeyManager(scopes[sn])
+		for _, c := range counters {
+			sm, err := mgr.FetchScopedKeyManager(scopes[c.scope])
 			if err != nil {
 				return err
 			}
-			p, err := sm.AccountProperties(ns, 0)
+			p, err := sm.AccountProperties(ns, c.account)
 			if err != nil {
 				return err
 			}
-			out[sn] = [2]uint32{p.ExternalKeyCount, p.InternalKeyCount}
+			out[c.String()] = [2]uint32{p.ExternalKeyCount, p.InternalKeyCount}
 		}
 		return nil
 	})
@@ -403,12 +491,12 @@ func (e *env) diskCounts(db walletdb.DB) (map[string][2]uint32, error) {
 
 func memCounts(w *wallet.Wallet) (map[string][2]uint32, error) {
 	out := map[string][2]uint32{}
-	for _, sn := range scopeNames {
-		p, err := w.AccountProperties(scopes[sn], 0)
+	for _, c := range counters {
+		p, err := w.AccountProperties(scopes[c.scope], c.account)
 		if err != nil {
 			return nil, err
 		}
-		out[sn] = [2]uint32{p.ExternalKeyCount, p.InternalKeyCount}
+		out[c.String()] = [2]uint32{p.ExternalKeyCount, p.InternalKeyCount}
 	}
 	return out, nil
 }
@@ -551,7 +639,12 @@ func txOutputs() []*wire.TxOut {
 func (r *run) invoke(i int, c callSpec) callObs {
 	w := r.o.w
 	sc := scopes[c.Scope]
-	res := callObs{API: c.API, Site: siteOf(c.API), Scope: c.Scope, Branch: branchOf(c.API), Index: -1}
+	res := callObs{API: c.API, Site: siteOf(c.API), Scope: c.Scope, Account: counterOf(c).account,
+		Branch: branchOf(c.API), Index: -1}
+	if c.Account > 1 || (c.Account == 1 && c.Scope != "84") {
+		res.Err = "harness: account 1 exists in scope 84 only"
+		return res
+	}
 	var addr btcutil.Address
 	var err error
 	filter := wallet.WithUtxoFilter(func(wtxmgr.Credit) bool {
@@ -573,21 +666,35 @@ func (r *run) invoke(i int, c callSpec) callObs {
 	k84 := waddrmgr.KeyScopeBIP0084
 	switch c.API {
 	case "NewAddress":
-		addr, err = w.NewAddress(0, sc)
+		addr, err = w.NewAddress(c.Account, sc)
 	case "NewChangeAddress":
-		addr, err = w.NewChangeAddress(0, sc)
+		addr, err = w.NewChangeAddress(c.Account, sc)
 	case "CurrentAddress":
-		addr, err = w.CurrentAddress(0, sc)
-	case "CreateSimpleTx", "CreateSimpleTxDry":
-		atx, e2 := w.CreateSimpleTx(&k84, 0, txOutputs(), 1, 2000, wallet.CoinSelectionLargest,
-			c.API == "CreateSimpleTxDry", wallet.WithCustomChangeScope(&sc), filter)
+		addr, err = w.CurrentAddress(c.Account, sc)
+	case "CreateSimpleTx", "CreateSimpleTxDry", "SpendImported", "SpendImportedDry":
+		// coins are selected among the outputs of the spending account in
+		// scope 84; a spend from the imported account takes the coin of the
+		// imported key and creates its change on account 0
+		from := c.Account
+		if isImportedSpend(c.API) {
+			from = waddrmgr.ImportedAddrAccount
+		}
+		atx, e2 := w.CreateSimpleTx(&k84, from, txOutputs(), 1, 2000, wallet.CoinSelectionLargest,
+			strings.HasSuffix(c.API, "Dry"), wallet.WithCustomChangeScope(&sc), filter)
 		err = e2
 		if err == nil {
 			addr, err = changeAddr(atx.Tx, atx.ChangeIndex)
 		}
-	case "FundPsbt":
+	case "FundPsbt", "FundPsbtImported":
+		from, coin := c.Account, uint32(fundOutAcct0)
+		if c.Account == 1 {
+			coin = fundOutAcct1
+		}
+		if isImportedSpend(c.API) {
+			from, coin = waddrmgr.ImportedAddrAccount, fundOutImported
+		}
 		utx := wire.NewMsgTx(2)
-		utx.AddTxIn(&wire.TxIn{PreviousOutPoint: wire.OutPoint{Hash: fundHash, Index: 0}})
+		utx.AddTxIn(&wire.TxIn{PreviousOutPoint: wire.OutPoint{Hash: fundHash, Index: coin}})
 		for _, o := range txOutputs() {
 			utx.AddTxOut(o)
 		}
@@ -596,7 +703,7 @@ func (r *run) invoke(i int, c callSpec) callObs {
 			err = e2
 			break
 		}
-		idx, e2 := w.FundPsbt(pkt, &k84, 1, 0, 2000, wallet.CoinSelectionLargest, wallet.WithCustomChangeScope(&sc))
+		idx, e2 := w.FundPsbt(pkt, &k84, 1, from, 2000, wallet.CoinSelectionLargest, wallet.WithCustomChangeScope(&sc))
 		err = e2
 		if err == nil {
 			addr, err = changeAddr(pkt.UnsignedTx, int(idx))
@@ -642,6 +749,7 @@ func (r *run) resolve(res *callObs) {
 			res.Scope = n
 		}
 	}
+	res.Account = path.InternalAccount
 	res.Branch = path.Branch
 	res.Index = int64(path.Index)
 }
@@ -782,9 +890,9 @@ func (e *env) runScenario(sc scenario) (obs, error) {
 		if res.Err != "" {
 			return out, fmt.Errorf("warm-up %s failed: %s", c.API, res.Err)
 		}
-		cached[c.Scope] = true
-		if siteOf(c.API) == "txToOutputs" || c.API == "FundPsbt" {
-			cached["84"] = true
+		cached[counterOf(c).String()] = true
+		if siteOf(c.API) == "txToOutputs" || siteOf(c.API) == "FundPsbt" {
+			cached["84/0"] = true
 		}
 	}
 	if sc.MarkUsed {
@@ -798,14 +906,14 @@ func (e *env) runScenario(sc scenario) (obs, error) {
 		if err != nil {
 			return out, err
 		}
-		cached["84"] = true
+		cached["84/0"] = true
 	}
 	if sc.Warm {
 		if _, err := memCounts(o.w); err != nil {
 			return out, err
 		}
-		for _, sn := range scopeNames {
-			cached[sn] = true
+		for _, c := range counters {
+			cached[c.String()] = true
 		}
 	}
 	before, err := e.diskCounts(o.proxy)
@@ -931,12 +1039,14 @@ func (e *env) runScenario(sc scenario) (obs, error) {
 	if err != nil {
 		return out, err
 	}
-	for _, sn := range scopeNames {
+	for _, ct := range counters {
+		k := ct.String()
 		for br := uint32(0); br < 2; br++ {
-			b := branchObs{Scope: sn, Branch: br, N0: before[sn][br], Cached: cached[sn],
-				MemAfter: mem[sn][br], DiskAfter: after[sn][br], Issued: []int64{}}
+			b := branchObs{Scope: ct.scope, Account: ct.account, Branch: br, N0: before[k][br], Cached: cached[k],
+				MemAfter: mem[k][br], DiskAfter: after[k][br], Issued: []int64{}}
 			for _, c := range r.results {
-				if c.Err == "" && c.Commits && c.N > 0 && c.Index >= 0 && c.Scope == sn && c.Branch == br {
+				if c.Err == "" && c.Commits && c.N > 0 && c.Index >= 0 && c.Scope == ct.scope &&
+					c.Account == ct.account && c.Branch == br {
 					b.Issued = append(b.Issued, c.Index)
 				}
 			}
@@ -996,10 +1106,20 @@ func oracle(o obs) []string {
 
 var apis = []string{"NewAddress", "NewChangeAddress", "CurrentAddress", "CreateSimpleTx", "CreateSimpleTxDry", "FundPsbt"}
 
+// all request kinds of the random scripts: the above plus the spends whose
+// inputs belong to the imported account (change lands on account 0)
+var allAPIs = append(append([]string{}, apis...), "SpendImported", "SpendImportedDry", "FundPsbtImported")
+
 func tagsOf(sc scenario, o obs) []string {
 	t := map[string]bool{"kind_" + sc.Kind: true, fmt.Sprintf("calls_%d", len(sc.Calls)): true}
 	for _, c := range sc.Calls {
 		t["api_"+c.API] = true
+		if isImportedSpend(c.API) {
+			t["imported_account_spend"] = true
+		}
+		if c.Account == 1 {
+			t["account_1"] = true
+		}
 		if c.Gate {
 			t["gated"] = true
 		}
@@ -1068,7 +1188,10 @@ func randomScenario(r *gen.R) scenario {
 	sc.Warm = r.Chance(1, 3)
 	creators := 0
 	for i := 0; i < n; i++ {
-		c := callSpec{API: apis[r.Pick(5, 5, 3, 2, 2, 2)], Scope: []string{"84", "86", "49"}[r.Pick(6, 2, 1)]}
+		c := callSpec{API: allAPIs[r.Pick(5, 5, 3, 2, 2, 2, 2, 1, 1)], Scope: []string{"84", "86", "49"}[r.Pick(6, 2, 1)]}
+		if c.Scope == "84" && !isImportedSpend(c.API) && r.Chance(1, 5) {
+			c.Account = 1
+		}
 		if siteOf(c.API) == "txToOutputs" {
 			// wallet.txCreator serves one request at a time; more than one
 			// in flight cannot be told apart at Begin, keep it to two
@@ -1201,6 +1324,50 @@ func main() {
 					if err := runOne(sc, "systematic"); err != nil {
 						return err
 					}
+				}
+			}
+		}
+		if !stressOnly {
+			// systematic, continued: spends whose inputs belong to the imported
+			// account create their change on ACCOUNT 0, so they compete with
+			// every account-0 request on the internal branch; and requests on
+			// account 1, which has its own counters (no interference expected)
+			w := func(a, b callSpec, k int) error {
+				sc := windowScenario(a, b, false, k%3)
+				sc.Warm = k%2 == 0
+				return runOne(sc, "systematic")
+			}
+			k := 0
+			partners := []string{"NewChangeAddress", "NewAddress", "CurrentAddress", "CreateSimpleTx", "FundPsbt",
+				"SpendImported", "SpendImportedDry"}
+			for _, imp := range []string{"SpendImported", "FundPsbtImported"} {
+				for _, p := range partners {
+					a, b := callSpec{API: imp, Scope: "84"}, callSpec{API: p, Scope: "84"}
+					if err := w(a, b, k); err != nil {
+						return err
+					}
+					k++
+					if p != imp {
+						if err := w(b, a, k); err != nil {
+							return err
+						}
+						k++
+					}
+				}
+			}
+			others := []callSpec{{API: "NewChangeAddress", Scope: "84"}, {API: "CreateSimpleTx", Scope: "84"},
+				{API: "SpendImported", Scope: "84"}, {API: "NewChangeAddress", Scope: "84", Account: 1}}
+			for _, a1 := range []string{"CreateSimpleTx", "NewChangeAddress", "FundPsbt"} {
+				for _, b := range others {
+					a := callSpec{API: a1, Scope: "84", Account: 1}
+					if err := w(a, b, k); err != nil {
+						return err
+					}
+					k++
+					if err := w(b, a, k); err != nil {
+						return err
+					}
+					k++
 				}
 			}
 		}
